@@ -120,6 +120,9 @@ func (v Val) Ser() string {
 		}
 		return v.mag().String() + "n"
 	case "obj":
+		if v.Sg == 9 {
+			return "rec" // the recorder object o
+		}
 		return fmt.Sprintf("obj#%d", v.Sg)
 	case "err":
 		switch v.Sg {
